@@ -34,7 +34,11 @@ def run_job(job):
     sc = runner.new_scratch("c05")
     try:
         w = runner.work_dir(sc)
-        home = runner.make_home(sc)
+        # no configuration file (the defaults are written on first use), an empty one, or a hand-written one with a single
+        # unrelated setting: what is left unsaid in the file takes its documented default
+        cfg = random.Random(job["seed"] ^ 0x5eed).choice([None, None, "", "no_color = true\n", "gitignore = false\nhgignore = false\n"])
+        home = runner.make_home(sc, config=cfg)
+        res.cover("configuration_file", "none" if cfg is None else "empty" if cfg == "" else "partial")
         root = os.path.join(w, "t")
         os.mkdir(root)
         ordering.order_tree(rng, root, extra=job.get("extra", 0))
